@@ -9,6 +9,7 @@ import pickle
 import re
 import signal
 import sys
+import types
 import weakref
 from collections.abc import Mapping
 from functools import cached_property
@@ -258,6 +259,8 @@ def load_tatsu():
     from tatsu.contexts import AST
     from tatsu.ngcodegen.grammar_gen import parsermodel_gen
     from tatsu.objectmodel import Node, nodedataclass
+    from tatsu.config import ParserConfig
+    from tatsu.input import NullText
     from tatsu.objectmodel.basenode import BaseNode
     from tatsu.peg import Grammar, Rule
     from tatsu.util import fromjson as fj_mod
@@ -718,15 +721,20 @@ class GrammarGen:
         directives = []
         if rng.random() < 0.5:
             directives.append(('grammar', rng.choice(['G', 'Calc', 'Tst'])))
-        if rng.random() < 0.35:
-            ws = rng.choice([r'/[ \t]+/', r'/\s+/', "' '", r'/f{0}[ ]+/' if rng.random() < max(self.risky, 0.2) else r'/[ ]+/'])
+        # every option is drawn over its whole value space: values that switch a default ON (truthy), values that
+        # switch a default OFF (False / None / '' - falsy but meaningful) and the bare form `@@name` (= True)
+        if rng.random() < 0.4:
+            ws = rng.choice([r'/[ \t]+/', r'/\s+/', "' '", r'/f{0}[ ]+/' if rng.random() < max(self.risky, 0.2) else r'/[ ]+/',
+                             'None', 'None', 'False', "''"])      # (`//` is left to C13: pretty() of that model raises, D8g)
             directives.append(('whitespace', ws))
+        if rng.random() < 0.25:
+            directives.append(('nameguard', rng.choice(['True', 'False', 'False', None])))
         if rng.random() < 0.2:
-            directives.append(('nameguard', rng.choice(['True', 'False'])))
-        if rng.random() < 0.15:
-            directives.append(('ignorecase', 'True'))
-        if rng.random() < 0.15:
-            directives.append(('parseinfo', 'True'))
+            directives.append(('ignorecase', rng.choice(['True', 'True', 'False', None])))
+        if rng.random() < 0.2:
+            directives.append(('parseinfo', rng.choice(['True', 'True', 'False', None])))
+        if rng.random() < 0.1:
+            directives.append(('memoization', rng.choice(['True', 'False', 'False'])))
         if rng.random() < 0.15:
             directives.append(('comments', r'/\(\*.*?\*\)/'))
         if rng.random() < 0.15:
@@ -825,7 +833,7 @@ def wrap(e):
 def render_grammar(g) -> str:
     out = []
     for name, value in g['directives']:
-        out.append(f'@@{name} :: {value}')
+        out.append(f'@@{name}' if value is None else f'@@{name} :: {value}')
     if g['keywords']:
         out.append('@@keyword :: ' + ' '.join(k if k.isalnum() else q(k) for k in g['keywords']))
     out.append('')
@@ -898,6 +906,41 @@ def sentence(g, rng, e, depth, rulemap) -> list[str]:
     raise ValueError(k)
 
 
+def option_sensitive(g, rng, toks):
+    """renderings of one sentence whose acceptance depends on a parser option (whitespace skipping, name guard,
+    case folding, comment skipping): always when the grammar sets the option, otherwise now and then"""
+    if not toks:
+        return []
+    names = {n for n, _ in g['directives']} | set(g.get('settings', {}))
+    out = []
+
+    def want(opts, p=0.15):
+        return bool(names & set(opts)) or rng.random() < p
+    if want(('whitespace',)):
+        out.append(''.join(toks))                                   # nothing to skip
+        out.append(rng.choice(['\t', '\n', '  ', ' \t\n']).join(toks))     # other blanks than a single space
+        out.append(' ' + ' '.join(toks) + rng.choice([' ', '\n']))         # leading / trailing blanks
+    if want(('nameguard', 'namechars', 'ignorecase')):
+        idx = [i for i, tk in enumerate(toks) if tk[-1:].isalnum()]
+        if idx:
+            i = rng.choice(idx)
+            glued = list(toks)
+            glued[i] = glued[i] + rng.choice(['x', 'fy', '1', '_', '-'])    # the token is a prefix of a longer name
+            out.append(' '.join(glued))
+            if i + 1 < len(toks):
+                out.append(' '.join(toks[:i]) + ' ' + toks[i] + toks[i + 1] + ' ' + ' '.join(toks[i + 2:]))
+    if want(('ignorecase',)):
+        out.append(' '.join(toks).swapcase())
+        out.append(' '.join(tk.capitalize() for tk in toks))
+    if 'comments' in names:
+        i = rng.randrange(len(toks) + 1)
+        out.append(' '.join(toks[:i] + ['(* c *)'] + toks[i:]))
+    if 'eol_comments' in names:
+        out.append(' '.join(toks) + ' # c')
+        out.append('# c\n' + ' '.join(toks))
+    return out
+
+
 def sample_inputs(g, rng, n):
     rulemap = {r['name']: r for r in g['rules']}
     out = ['']
@@ -908,6 +951,7 @@ def sample_inputs(g, rng, n):
             toks = sentence(g, rng, rulemap[base]['exp'], 0, rulemap) + toks
         s = rng.choice([' ', ' ', '']).join(toks)
         out.append(s)
+        out += option_sensitive(g, rng, toks)
         r = rng.random()
         if r < 0.25 and s:
             i = rng.randrange(len(s))
@@ -947,6 +991,8 @@ def neutralize(g, prefixes: tuple, cls_keys: bool):
         return 'x' + s if prefixes and s.startswith(prefixes) else s
 
     def fq(v):   # quoted literal in directives / kwparams
+        if v is None:
+            return v
         for qt in ("'", '/'):
             if v.startswith(qt) and prefixes and v[1:].startswith(prefixes):
                 return v[0] + ('x' if qt == "'" else '(?:)') + v[1:]
@@ -990,8 +1036,43 @@ def strip_ids(j):
     return j
 
 
+def canon_setting(v):
+    """a configuration value with its type (False, None, 0 and '' are different settings)"""
+    if v is None or isinstance(v, (bool, int, float, str)):
+        return (type(v).__name__, v)
+    if isinstance(v, (tuple, list)):
+        return (type(v).__name__, tuple(canon_setting(e) for e in v))
+    if isinstance(v, types.ModuleType):
+        return ('module', v.__name__)
+    if isinstance(v, type):
+        return ('class', f'{v.__module__}.{v.__qualname__}')
+    if isinstance(v, re.Pattern):
+        return ('re.Pattern', v.pattern, v.flags)
+    if type(v).__name__ == 'UndefinedType':
+        return ('Undefined',)
+    if isinstance(v, C14Sem):
+        return ('C14Sem', v.tag)
+    return ('instance', type(v).__name__)
+
+
+def canon_config(cfg):
+    """the effective parser configuration: every field of the dataclass, read from the instance"""
+    return {f.name: canon_setting(getattr(cfg, f.name, ('<missing>',))) for f in dataclasses.fields(cfg)}
+
+
+def config_diff(c1, c2):
+    return {k: (c1.get(k), c2.get(k)) for k in sorted(set(c1) | set(c2)) if c1.get(k) != c2.get(k)}
+
+
+class C14Sem:
+    """a picklable semantics object (module level: pickle finds it by name)"""
+    def __init__(self, tag=0):
+        self.tag = tag
+
+
 def model_facts(t, m):
     return {
+        'config': canon_config(m.config),
         'name': m.name,
         'rules': [(r.name, list(r.params or ()), dict(r.kwparams or {}), r.base, bool(r.is_name), bool(r.no_memo),
                    bool(r.is_lrec), bool(r.is_tokn)) for r in m.rules],
@@ -1015,6 +1096,11 @@ def diff_models(t, ref_facts, m2, ref_results, inputs, parse_kw):
         got = parse_outcome(t, m2, text, **parse_kw)
         if got != want:
             return 'parse-differs', f'input {text!r}: {want} != {got}'
+    # the configuration the parses run with (Grammar.config): a setting that differs changes the language or the
+    # ASTs for some input even if none of the sampled ones shows it
+    if ref_facts['config'] != f2['config']:
+        d = config_diff(ref_facts['config'], f2['config'])
+        return 'config-differs:' + '+'.join(sorted(d)), str(d)[:400]
     return None, ''
 
 
@@ -1043,10 +1129,74 @@ def style_features(g):
                 feats.add('dict-key-__class__')
             visit_str(v.strip("'"))
     for n, v in g['directives']:
-        visit_str(v[1:] if v[:1] in "'/" else v)
+        if v is not None:
+            visit_str(v[1:] if v[:1] in "'/" else v)
     for k in g['keywords']:
         visit_str(k)
     return feats
+
+
+SETTINGS_POOL = [
+    ('nameguard', [False, False, True]), ('whitespace', ['', '', '[ ]+', '\\s+', None]), ('ignorecase', [True, False]),
+    ('left_recursion', [False]), ('memoization', [False]), ('prune_memos_on_cut', [False]), ('parseinfo', [True, False]),
+    ('namechars', ['-', '_', '']), ('comments', ['\\(\\*.*?\\*\\)', '']), ('eol_comments', ['#.*?$', '']), ('perlinememos', [0, 0.5, 2]),
+    ('colorize', [False]), ('trace_length', [0, 10]), ('trace_separator', ['', '>']), ('heart_bps', [0]), ('source', ['', 'g.tatsu']),
+    ('start', [None, 'start']),
+]
+
+
+def draw_settings(rng, lo=1, hi=3):
+    return {name: rng.choice(values) for name, values in rng.sample(SETTINGS_POOL, rng.randint(lo, hi))}
+
+
+def check_settings_model(chk: Check, t, g, text, gname, rng, proto, parse_kw):
+    """Grammar(name, rules, directives=, keywords=, **settings) / config=ParserConfig(**settings): the settings live only in
+    Grammar.config, which travels with the pickle (JSON and model source carry rules, directives and keywords only)"""
+    settings = draw_settings(rng)
+    via_config = rng.random() < 0.5
+    try:
+        with time_limit(20):
+            base = t.tatsu.compile(text, name=gname + 'S')      # its own rule objects (a Grammar links its rules to itself)
+            if via_config:
+                ms = t.Grammar(base.name, base.rules, directives=dict(base.directives), keywords=base.keywords,
+                               config=t.ParserConfig(**settings))
+            else:
+                ms = t.Grammar(base.name, base.rules, directives=dict(base.directives), keywords=base.keywords, **settings)
+    except Exception as e:   # noqa: BLE001   (e.g. left_recursion=False on a left-recursive grammar)
+        chk.count(f'oracle.settings-model-rejected.{type(e).__name__}')
+        return 0
+    chk.count('oracle.settings-models')
+    for k in settings:
+        chk.count(f'oracle.settings-models.{k}')
+    g2 = dict(g, settings=settings)
+    inputs = sample_inputs(g2, rng, 3 if chk.quick else 6)
+    chk.case(f'settings-model:{sorted(settings.items(), key=str)}:{text}', nontrivial=True)
+    try:
+        fresh_blob = pickle.dumps(ms, protocol=proto)
+        ref_results = [parse_outcome(t, ms, s, **parse_kw) for s in inputs]
+        ref = model_facts(t, ms)
+    except Exception as e:   # noqa: BLE001
+        chk.violation(f'pickle:settings-model-raises-{type(e).__name__}', f'a model built with settings cannot be pickled/described: {e!r}'[:300],
+                      {'oracle': 'pickle.dumps(Grammar(..., **settings))', 'grammar': text, 'settings': repr(settings)})
+        return 1
+    for when, blob in (('fresh', fresh_blob), ('after-parsing', None)):
+        try:
+            with time_limit(30):
+                m2 = pickle.loads(blob if blob is not None else pickle.dumps(ms, protocol=proto))
+            why, detail = diff_models(t, ref, m2, ref_results, inputs, parse_kw)
+        except Timeout:
+            why, detail = 'load-timeout', ''
+        except Exception as e:   # noqa: BLE001
+            why, detail = f'load-raises-{type(e).__name__}', str(e)[:300]
+        if why:
+            chk.violation(f'pickle:settings-model:{why}',
+                          f'a model built with {"config=ParserConfig(**s)" if via_config else "**s"}, s={settings!r}, reloaded from '
+                          f'pickle ({when}) differs ({why}): {detail[:200]}',
+                          {'oracle': 'pickle.loads(pickle.dumps(Grammar(name, rules, directives=, keywords=, **settings)))',
+                           'grammar': text, 'settings': repr(settings), 'via_config': via_config, 'difference': why,
+                           'detail': detail, 'pickled': when, 'protocol': proto})
+            return 1
+    return 0
 
 
 def load_json_path(t, m, variant):
@@ -1095,6 +1245,12 @@ def run_oracle(chk: Check, t, mr: ModelRun, bkeys_sx, reg_sx):
             parse_kw = {'asmodel': True}
         elif it % 4 == 2:
             parse_kw = {'parseinfo': True}
+        # pickled before the first parse (no cached optimized model yet) and, below, after parsing
+        proto = rng.choice([2, 3, 4, 5])
+        try:
+            fresh_blob = pickle.dumps(m, protocol=proto)
+        except Exception as e:   # noqa: BLE001
+            fresh_blob = e
         ref_results = [parse_outcome(t, m, s, **parse_kw) for s in inputs]
         for s, r in zip(inputs, ref_results):
             chk.count('oracle.parses.' + r[0])
@@ -1127,11 +1283,21 @@ def run_oracle(chk: Check, t, mr: ModelRun, bkeys_sx, reg_sx):
                               {'oracle': 'Grammar.load(json.loads(json.dumps(m.asjson())))', 'grammar': small_text,
                                'difference': why, 'detail': detail, 'variant': variant})
         # ---- pickle
-        why, detail = check_path('pickle', lambda: pickle.loads(pickle.dumps(m)), ref, 0)
-        if why:
-            nbad['pickle'] += 1
-            chk.violation(f'pickle:{why}', f'grammar reloaded from pickle differs ({why}): {detail[:200]}',
-                          {'oracle': 'pickle.loads(pickle.dumps(m))', 'grammar': text, 'difference': why, 'detail': detail})
+        def unpickle_fresh():
+            if isinstance(fresh_blob, Exception):
+                raise fresh_blob
+            return pickle.loads(fresh_blob)
+        for when, loader in (('after-parsing', lambda: pickle.loads(pickle.dumps(m, protocol=proto))), ('fresh', unpickle_fresh)):
+            why, detail = check_path('pickle', loader, ref, 0)
+            if why:
+                nbad['pickle'] += 1
+                chk.violation(f'pickle:{why}', f'grammar reloaded from pickle ({when}, protocol {proto}) differs ({why}): {detail[:200]}',
+                              {'oracle': 'pickle.loads(pickle.dumps(m))', 'grammar': text, 'difference': why, 'detail': detail,
+                               'pickled': when, 'protocol': proto})
+                break
+        # ---- pickle of a model whose configuration was given to the constructor (not written in the grammar text)
+        if it % 2 == 1:
+            nbad['pickle'] += check_settings_model(chk, t, g, text, gname, rng, proto, parse_kw)
         # ---- model source (emits the optimized model)
         try:
             mo = m.optimized()
@@ -1409,6 +1575,69 @@ def attribute_source(t, g, gname, why):
     return f'source:other:{why}', text
 
 
+# ===================================================================== pickle state of the configuration object
+def run_config_pickle(chk: Check, t):
+    """Config.__getstate__/__setstate__ (the pickle state of Grammar._config): a ParserConfig with any combination of settings,
+    drawn over truthy, falsy (False / 0 / '' / () / None) and module / class / instance values, comes back with every field
+    equal - compared field by field with the type of the value"""
+    rng = chk.rng
+    n = 400 if chk.quick else 4000
+    fields = {f.name: f for f in dataclasses.fields(t.ParserConfig)}
+    pool = dict(SETTINGS_POOL)
+    pool.update({'name': [None, '', 'G'], 'grammar': [None, 'G'], 'keywords': [(), ('if',), ('if', 'then')],
+                 'semantics': [None, json, re, C14Sem(0), C14Sem(7)], 'trace': [True, False], 'comment_recovery': [True, False],
+                 'tokenizercls': [t.NullText], 'owner': [None, 0, ''], 'extra': [None, {}, [], {'k': False}]})
+    pool = {k: v for k, v in pool.items() if k in fields}
+    chk.obligation('T:ParserConfig has the fields the settings pool draws from', 'translator',
+                   {'nameguard', 'whitespace', 'left_recursion', 'memoization', 'semantics', 'keywords'} <= set(pool))
+    bad = 0
+    for it in range(n):
+        names = rng.sample(sorted(pool), rng.randint(0, 5))
+        settings = {k: rng.choice(pool[k]) for k in names}
+        how = rng.choice(['init', 'override', 'hard_override', 'setattr'])
+        try:
+            if how == 'init':
+                cfg = t.ParserConfig(**settings)
+            elif how == 'override':
+                cfg = t.ParserConfig().override(**settings)
+            elif how == 'hard_override':
+                cfg = t.ParserConfig().hard_override(**settings)
+            else:
+                cfg = t.ParserConfig()
+                for k, v in settings.items():
+                    setattr(cfg, k, v)
+        except Exception as e:   # noqa: BLE001
+            chk.count(f'config-pickle.rejected.{type(e).__name__}')
+            continue
+        chk.evaluations += 1
+        chk.count('config-pickle.configs')
+        before = canon_config(cfg)
+        falsy = sorted(k for k, v in settings.items() if not v and v is not None and before.get(k) == canon_setting(v))
+        if falsy:
+            chk.count('config-pickle.with-falsy-non-default')
+        chk.case(f'config-pickle:{how}:{sorted(before.items())}', nontrivial=bool(settings))
+        proto = rng.choice([2, 3, 4, 5])
+        try:
+            cfg2 = pickle.loads(pickle.dumps(cfg, protocol=proto))
+            after = canon_config(cfg2)
+            d = config_diff(before, after)
+            if not d and type(cfg2) is not type(cfg):
+                d = {'<type>': (type(cfg).__name__, type(cfg2).__name__)}
+            if not d and canon_config(cfg) != before:
+                d = {'<original-mutated-by-pickling>': config_diff(before, canon_config(cfg))}
+        except Exception as e:   # noqa: BLE001
+            d = {'<raises>': type(e).__name__}
+        if d:
+            bad += 1
+            kinds = sorted({'raises' if k == '<raises>' else ('falsy' if (k in settings and not settings[k]) else 'value') for k in d})
+            chk.violation('pickle:config-state:' + '+'.join(kinds),
+                          f'ParserConfig built by {how} with {settings!r} differs after pickle: {d}'[:400],
+                          {'oracle': 'pickle.loads(pickle.dumps(ParserConfig(...))) has equal fields', 'how': how,
+                           'settings': repr(settings), 'difference': repr(d), 'protocol': proto})
+    chk.obligation('oracle:a pickled ParserConfig comes back with every field equal (truthy, falsy, module, class, instance values)',
+                   'oracle', bad == 0)
+
+
 # ===================================================================== fixed replays of the Coq witnesses
 def run_witnesses(chk: Check, t):
     """the _refuted witnesses replayed on the real code"""
@@ -1490,6 +1719,7 @@ def main():
         for phase, fn in (('witnesses', lambda: run_witnesses(chk, t)),
                           ('J1-graphs', lambda: run_j1_graphs(chk, t, mr, bkeys_sx)),
                           ('J1b-fromjson', lambda: run_j1b_fromjson(chk, t, mr)),
+                          ('config-pickle', lambda: run_config_pickle(chk, t)),
                           ('oracle', lambda: run_oracle(chk, t, mr, bkeys_sx, reg_sx))):
             try:
                 fn()
